@@ -34,7 +34,7 @@ Proof. induction sched as [|a r IH]; intro s; [reflexivity|]. cbn [run fold_left
 (* ---- frame: an action touches only the thread-local state of its actor --------------------------- *)
 Lemma step_frame s a u : actor a <> Some u -> loc (step s a) u = loc s u.
 Proof.
-  intro H. destruct a as [t|t|t e|t|t|t|t| |t]; cbn [step actor] in *;
+  intro H. destruct a as [t|t|t e|t|t|t|t| |t|t|t e]; cbn [step actor] in *;
     try (assert (Hu : u <> t) by congruence);
     destr_step; try reflexivity;
     try (apply upd_other; exact Hu).
@@ -43,17 +43,13 @@ Qed.
 (* only the main thread's Harvest writes results, and only once per test *)
 Lemma step_results_other s a u : a <> Harvest u -> results (step s a) u = results s u.
 Proof.
-  intro H. destruct a as [t|t|t e|t|t|t|t| |t]; cbn [step]; destr_step; try reflexivity.
-  - apply upd_other. congruence.
-  - apply upd_other. congruence.
-  - apply upd_other. congruence.
-  - apply upd_other. congruence.
-  - apply upd_other. congruence.
+  intro H. destruct a as [t|t|t e|t|t|t|t| |t|t|t e]; cbn [step]; destr_step; try reflexivity;
+    apply upd_other; congruence.
 Qed.
 
 Lemma action_eq_harvest a u : a = Harvest u \/ a <> Harvest u.
 Proof.
-  destruct a as [t|t|t e|t|t|t|t| |t]; try (right; discriminate).
+  destruct a as [t|t|t e|t|t|t|t| |t|t|t e]; try (right; discriminate).
   destruct (Nat.eq_dec t u) as [E|E]; [left; subst; reflexivity|right; congruence].
 Qed.
 
@@ -86,22 +82,28 @@ Ltac split_upd u t :=
   unfold upd in *; destruct (Nat.eqb u t) eqn:?E;
   [apply Nat.eqb_eq in E; subst|].
 
+(* [recorded_by u e a]: action a is thread u recording event e (a line/branch probe, or the end of a
+   predicate callback) *)
+Definition recorded_by (u : tid) (e : Z) (a : action) : Prop := a = Probe u e \/ a = HookEnd u e.
+
 Lemma step_trace_in s a u e :
-  In e (trace (loc (step s a) u)) -> In e (trace (loc s u)) \/ In e (imp s) \/ a = Probe u e.
+  In e (trace (loc (step s a) u)) -> In e (trace (loc s u)) \/ In e (imp s) \/ recorded_by u e a.
 Proof.
-  destruct a as [t|t|t e'|t|t|t|t| |t]; cbn [step]; destr_step; intro H; auto;
-    split_upd u t; cbn [trace] in H; auto.
-  apply in_app_or in H. destruct H as [H|[H|[]]]; [auto|]. subst. auto.
+  unfold recorded_by.
+  destruct a as [t|t|t e'|t|t|t|t| |t|t|t e']; cbn [step]; destr_step; intro H; auto;
+    split_upd u t; cbn [trace] in H; auto;
+    (apply in_app_or in H; destruct H as [H|[H|[]]]; [auto|]; subst; auto).
 Qed.
 
 Lemma run_trace_in sched : forall s u e, In e (trace (loc (run s sched) u)) ->
-  In e (trace (loc s u)) \/ In e (imp s) \/ In (Probe u e) sched.
+  In e (trace (loc s u)) \/ In e (imp s) \/ exists a, In a sched /\ recorded_by u e a.
 Proof.
   induction sched as [|a r IH]; intros s u e H; [auto|].
-  rewrite run_cons in H. destruct (IH _ _ _ H) as [H1|[H1|H1]].
-  - destruct (step_trace_in _ _ _ _ H1) as [H2|[H2|H2]]; auto. subst. right. right. left. reflexivity.
+  rewrite run_cons in H. destruct (IH _ _ _ H) as [H1|[H1|(b & Hb & Rb)]].
+  - destruct (step_trace_in _ _ _ _ H1) as [H2|[H2|H2]]; auto.
+    right. right. exists a. split; [left; reflexivity|exact H2].
   - rewrite step_imp in H1. auto.
-  - right. right. right. exact H1.
+  - right. right. exists b. split; [right; exact Hb|exact Rb].
 Qed.
 
 Lemma step_result_origin s a u l :
@@ -116,39 +118,44 @@ Qed.
 Lemma run_result_in sched : forall s u l, results (run s sched) u = Some (ROk l) ->
   forall e, In e l ->
   (exists l0, results s u = Some (ROk l0) /\ In e l0) \/ In e (trace (loc s u)) \/ In e (imp s)
-  \/ In (Probe u e) sched.
+  \/ exists a, In a sched /\ recorded_by u e a.
 Proof.
   induction sched as [|a r IH]; intros s u l H e He.
   - left. exists l. auto.
-  - rewrite run_cons in H. destruct (IH _ _ _ H e He) as [(l0 & R & I0)|[H1|[H1|H1]]].
+  - rewrite run_cons in H. destruct (IH _ _ _ H e He) as [(l0 & R & I0)|[H1|[H1|(b & Hb & Rb)]]].
     + destruct (step_result_origin _ _ _ _ R) as [R'|R'].
       * left. exists l0. auto.
       * subst l0. auto.
-    + destruct (step_trace_in _ _ _ _ H1) as [H2|[H2|H2]]; auto. subst. right. right. right. left. reflexivity.
+    + destruct (step_trace_in _ _ _ _ H1) as [H2|[H2|H2]]; auto.
+      right. right. right. exists a. split; [left; reflexivity|exact H2].
     + rewrite step_imp in H1. auto.
-    + right. right. right. right. exact H1.
+    + right. right. right. exists b. split; [right; exact Hb|exact Rb].
 Qed.
 
 Lemma no_pollution_trace g im sched u e :
-  In e (trace (loc (run (init_state g im) sched) u)) -> In e im \/ In (Probe u e) sched.
+  In e (trace (loc (run (init_state g im) sched) u)) ->
+  In e im \/ exists a, In a sched /\ recorded_by u e a.
 Proof.
   intro H. destruct (run_trace_in _ _ _ _ H) as [H1|[H1|H1]]; auto. cbn in H1. contradiction.
 Qed.
 
 Lemma no_pollution_result g im sched u l :
   results (run (init_state g im) sched) u = Some (ROk l) ->
-  forall e, In e l -> In e im \/ In (Probe u e) sched.
+  forall e, In e l -> In e im \/ exists a, In a sched /\ recorded_by u e a.
 Proof.
   intros H e He. destruct (run_result_in _ _ _ _ H e He) as [(l0 & R & _)|[H1|[H1|H1]]]; auto.
   - cbn in R. discriminate.
   - cbn in H1. contradiction.
 Qed.
 
-(* events probed by other threads never show up: the contrapositive, in the property's words *)
+(* events recorded by other threads never show up: the contrapositive, in the property's words *)
 Lemma foreign_events_never_added g im sched u l e :
   results (run (init_state g im) sched) u = Some (ROk l) ->
-  ~ In e im -> ~ In (Probe u e) sched -> ~ In e l.
-Proof. intros H A B C. destruct (no_pollution_result _ _ _ _ _ H e C); contradiction. Qed.
+  ~ In e im -> ~ In (Probe u e) sched -> ~ In (HookEnd u e) sched -> ~ In e l.
+Proof.
+  intros H A B B' C. destruct (no_pollution_result _ _ _ _ _ H e C) as [D|(a & Ia & [Ra|Ra])];
+    [contradiction|subst a; contradiction|subst a; contradiction].
+Qed.
 
 (* ---- the abandoned thread dies and records nothing ------------------------------------------------ *)
 Lemma probe_aborts s t e :
@@ -176,15 +183,18 @@ Proof.
   destruct (Nat.eqb t' t) eqn:E; [apply Nat.eqb_eq in E; contradiction|reflexivity].
 Qed.
 
-(* zombie invariant: thread t has started and, if it is still live, it is not the current thread *)
+(* zombie invariant: thread t has started and, as long as it can still act (Live, or inside a hook), it is
+   not the current thread *)
+Definition active (l : tlocal) : bool := match st l with Live | InHook => true | _ => false end.
+
 Definition zombie (s : state) (t : tid) : Prop :=
-  st (loc s t) <> Fresh /\ (is_live (loc s t) = true -> is_current s t = false).
+  st (loc s t) <> Fresh /\ (active (loc s t) = true -> is_current s t = false).
 
 Lemma step_current_cases s a :
   current (step s a) = current s \/ current (step s a) = None
   \/ exists u, a = Enter u /\ current (step s a) = Some u.
 Proof.
-  destruct a as [u|u|u e|u|u|u|u| |u]; cbn [step]; destr_step; auto.
+  destruct a as [u|u|u e|u|u|u|u| |u|u|u e]; cbn [step]; destr_step; auto.
   right. right. exists u. auto.
 Qed.
 
@@ -195,109 +205,174 @@ Proof.
   destruct (Nat.eqb u t) eqn:E; [apply Nat.eqb_eq in E; congruence|reflexivity].
 Qed.
 
-Lemma is_live_st l : is_live l = true <-> st l = Live.
-Proof. unfold is_live. destruct (st l); split; congruence. Qed.
-
-Lemma zombie_step s a t : zombie s t -> a <> Enter t ->
-  zombie (step s a) t /\ trace (loc (step s a) t) = trace (loc s t).
-Proof.
-  intros [NF NC] NE. unfold zombie.
-  assert (Other : actor a <> Some t ->
-            (st (loc (step s a) t) <> Fresh /\
-             (is_live (loc (step s a) t) = true -> is_current (step s a) t = false)) /\
-            trace (loc (step s a) t) = trace (loc s t)).
-  { intro Ha. rewrite (step_frame s a t Ha). split; [split; [exact NF|]|reflexivity].
-    intro L. apply step_not_current; auto. }
-  destruct a as [u|u|u e|u|u|u|u| |u]; try (apply Other; cbn; congruence);
-    (destruct (Nat.eq_dec u t) as [->|N]; [|apply Other; cbn; congruence]).
-  - (* Init t: t is not Fresh, no-op *)
-    cbn [step]. destruct (st (loc s t)) eqn:S; try congruence; (split; [split; [congruence|exact NC]|reflexivity]).
-  - (* Probe *)
-    cbn [step]. destruct (is_live (loc s t)) eqn:L; [|split; [split; [exact NF|intro X; congruence]|reflexivity]].
-    pose proof (NC eq_refl) as C. rewrite C.
-    destruct (enabled (loc s t)); [|split; [split; [exact NF|intros _; exact C]|reflexivity]].
-    cbn [loc set_loc]. rewrite upd_same. cbn [st trace is_live]. unfold is_live; cbn [st].
-    split; [split; [discriminate|discriminate]|reflexivity].
-  - (* Check *)
-    cbn [step]. destruct (is_live (loc s t)) eqn:L; [|split; [split; [exact NF|intro X; congruence]|reflexivity]].
-    pose proof (NC eq_refl) as C. rewrite C. cbn [loc set_loc]. rewrite upd_same. unfold is_live; cbn [st trace].
-    split; [split; [discriminate|discriminate]|reflexivity].
-  - (* Disable *)
-    cbn [step]. destruct (is_live (loc s t)) eqn:L; [|split; [split; [exact NF|intro X; congruence]|reflexivity]].
-    cbn [loc set_loc]. rewrite upd_same. cbn [st trace]. unfold is_current; cbn [current set_loc].
-    split; [split; [discriminate|intros _; apply (NC eq_refl)]|reflexivity].
-  - (* Enable *)
-    cbn [step]. destruct (is_live (loc s t)) eqn:L; [|split; [split; [exact NF|intro X; congruence]|reflexivity]].
-    cbn [loc set_loc]. rewrite upd_same. cbn [st trace]. unfold is_current; cbn [current set_loc].
-    split; [split; [discriminate|intros _; apply (NC eq_refl)]|reflexivity].
-  - (* Exit *)
-    cbn [step]. destruct (st (loc s t)) eqn:S;
-      try (split; [split; [congruence|exact NC]|reflexivity]);
-      destruct (guard s); try destruct (is_current s t);
-      cbn [loc set_loc set_current]; rewrite upd_same; unfold is_live; cbn [st trace];
-      (split; [split; [discriminate|discriminate]|reflexivity]).
-Qed.
-
-Lemma zombie_run sched : forall s t, zombie s t -> ~ In (Enter t) sched ->
-  zombie (run s sched) t /\ trace (loc (run s sched) t) = trace (loc s t).
-Proof.
-  induction sched as [|a r IH]; intros s t Z N; [auto|].
-  rewrite run_cons.
-  assert (NE : a <> Enter t) by (intro E; apply N; left; exact E).
-  destruct (zombie_step s a t Z NE) as [Z' T'].
-  destruct (IH (step s a) t Z') as [Z'' T'']; [intro I; apply N; right; exact I|].
-  split; [exact Z''|congruence].
-Qed.
-
-(* after the main thread's stop(), the abandoned thread t never adds anything to its trace, whatever it
-   and everybody else does afterwards (t itself does not re-enter the tracer: program order) *)
-Lemma abandoned_records_nothing s t sched : st (loc s t) <> Fresh -> ~ In (Enter t) sched ->
-  trace (loc (run (step s Stop) sched) t) = trace (loc s t).
-Proof.
-  intros NF N.
-  assert (Z : zombie (step s Stop) t) by (split; [exact NF|intros _; reflexivity]).
-  destruct (zombie_run sched _ t Z N) as [_ T]. exact T.
-Qed.
-
-(* ... and the same once a later test has entered the tracer *)
-Lemma superseded_records_nothing s t t' sched : t' <> t -> st (loc s t) <> Fresh ->
-  is_live (loc s t') = true -> ~ In (Enter t) sched ->
-  trace (loc (run (step s (Enter t')) sched) t) = trace (loc s t).
-Proof.
-  intros D NF L N.
-  assert (F : loc (step s (Enter t')) t = loc s t) by (apply step_frame; cbn; congruence).
-  assert (Z : zombie (step s (Enter t')) t).
-  { split; [rewrite F; exact NF|intros _; apply enter_revokes; assumption]. }
-  destruct (zombie_run sched _ t Z N) as [_ T]. rewrite T, F. reflexivity.
-Qed.
-
 Lemma option_eq_actor a t : actor a = Some t \/ actor a <> Some t.
 Proof.
   destruct (actor a) as [u|]; [|right; discriminate].
   destruct (Nat.eq_dec u t) as [->|N]; [left; reflexivity|right; congruence].
 Qed.
 
-(* a thread that is no longer live is frozen for good *)
-Lemma dead_is_frozen s t sched : st (loc s t) <> Fresh -> is_live (loc s t) = false ->
-  trace (loc (run s sched) t) = trace (loc s t) /\ is_live (loc (run s sched) t) = false.
+(* what one action of thread t itself does to t's local state, given that t is not the current thread *)
+Lemma own_step_not_current s a t : actor a = Some t -> a <> Enter t -> is_current s t = false ->
+  st (loc s t) <> Fresh ->
+  st (loc (step s a) t) <> Fresh
+  /\ ((forall e, a <> HookEnd t e) -> trace (loc (step s a) t) = trace (loc s t)).
 Proof.
-  revert s. induction sched as [|a r IH]; intros s NF L; [auto|].
+  intros A NE C NF.
+  destruct a as [u|u|u e|u|u|u|u| |u|u|u e]; cbn in A; try discriminate; inversion A; subst u; clear A;
+    cbn [step]; try rewrite C.
+  - (* Init *) destruct (st (loc s t)) eqn:S; try congruence; (split; [congruence|reflexivity]).
+  - (* Enter *) congruence.
+  - (* Probe *) destruct (is_live (loc s t)); [|split; [exact NF|reflexivity]].
+    destruct (enabled (loc s t)); [|split; [exact NF|reflexivity]].
+    cbn [loc set_loc]. rewrite upd_same. cbn [st trace]. split; [discriminate|reflexivity].
+  - (* Check *) destruct (is_live (loc s t)); [|split; [exact NF|reflexivity]].
+    cbn [loc set_loc]. rewrite upd_same. cbn [st trace]. split; [discriminate|reflexivity].
+  - (* Disable *) destruct (is_live (loc s t)); [|split; [exact NF|reflexivity]].
+    cbn [loc set_loc]. rewrite upd_same. cbn [st trace]. split; [discriminate|reflexivity].
+  - (* Enable *) destruct (is_live (loc s t)); [|split; [exact NF|reflexivity]].
+    cbn [loc set_loc]. rewrite upd_same. cbn [st trace]. split; [discriminate|reflexivity].
+  - (* Exit *) destruct (st (loc s t)) eqn:S; try (split; [congruence|reflexivity]);
+      destruct (guard s); cbn [loc set_loc set_current]; rewrite upd_same; cbn [st trace];
+      (split; [discriminate|reflexivity]).
+  - (* HookBegin *) destruct (is_live (loc s t)); [|split; [exact NF|reflexivity]].
+    destruct (enabled (loc s t)); [|split; [exact NF|reflexivity]].
+    cbn [loc set_loc]. rewrite upd_same. cbn [st trace]. split; [discriminate|reflexivity].
+  - (* HookEnd *) destruct (st (loc s t)) eqn:S; try (split; [congruence|reflexivity]).
+    cbn [loc set_loc]. rewrite upd_same. cbn [st trace]. split; [discriminate|].
+    intro H. exfalso. apply (H e). reflexivity.
+Qed.
+
+(* an action of thread t never makes t current, except Enter t *)
+Lemma own_step_current s a t : actor a = Some t -> a <> Enter t -> is_current s t = false ->
+  is_current (step s a) t = false.
+Proof. intros _ NE C. apply step_not_current; assumption. Qed.
+
+(* a thread that was aborted or has left its with-block *)
+Definition dead (l : tlocal) : bool := match st l with Aborting | Finished | Done => true | _ => false end.
+
+Lemma dead_step s a t : dead (loc s t) = true ->
+  dead (loc (step s a) t) = true /\ trace (loc (step s a) t) = trace (loc s t).
+Proof.
+  intro D. destruct (option_eq_actor a t) as [A|A]; [|rewrite (step_frame s a t A); auto].
+  unfold dead in D.
+  destruct a as [u|u|u e|u|u|u|u| |u|u|u e]; cbn in A; try discriminate; inversion A; subst u; clear A;
+    cbn [step]; unfold is_live, dead;
+    destruct (st (loc s t)) eqn:S; try discriminate D; rewrite ?S; auto;
+    destruct (guard s); try destruct (is_current s t); cbn [loc set_loc set_current];
+    rewrite ?upd_same; cbn [st trace]; rewrite ?S; auto.
+Qed.
+
+Lemma not_fresh_inactive_dead l : st l <> Fresh -> active l = false -> dead l = true.
+Proof. unfold active, dead. destruct (st l); congruence. Qed.
+
+Lemma dead_not_active l : dead l = true -> st l <> Fresh /\ active l = false.
+Proof. unfold active, dead. destruct (st l); split; congruence. Qed.
+
+Lemma zombie_step s a t : zombie s t -> a <> Enter t ->
+  zombie (step s a) t
+  /\ ((forall e, a <> HookEnd t e) -> trace (loc (step s a) t) = trace (loc s t)).
+Proof.
+  intros [NF NC] NE. unfold zombie.
+  destruct (active (loc s t)) eqn:Act.
+  - pose proof (NC eq_refl) as C.
+    destruct (option_eq_actor a t) as [A|A].
+    + destruct (own_step_not_current s a t A NE C NF) as [F T].
+      split; [split; [exact F|intros _; apply step_not_current; assumption]|exact T].
+    + rewrite (step_frame s a t A). split; [split; [exact NF|]|reflexivity].
+      intros _. apply step_not_current; assumption.
+  - pose proof (not_fresh_inactive_dead _ NF Act) as D.
+    destruct (dead_step s a t D) as [D' T']. destruct (dead_not_active _ D') as [F' A'].
+    split; [split; [exact F'|]|intros _; exact T'].
+    intro L. rewrite A' in L. discriminate.
+Qed.
+
+Lemma zombie_run sched : forall s t, zombie s t -> ~ In (Enter t) sched ->
+  (forall e, ~ In (HookEnd t e) sched) ->
+  zombie (run s sched) t /\ trace (loc (run s sched) t) = trace (loc s t).
+Proof.
+  induction sched as [|a r IH]; intros s t Z N NH; [auto|].
   rewrite run_cons.
-  assert (K : st (loc (step s a) t) <> Fresh /\ is_live (loc (step s a) t) = false
-              /\ trace (loc (step s a) t) = trace (loc s t)).
-  { destruct (option_eq_actor a t) as [E|E].
-    - destruct a as [u|u|u e|u|u|u|u| |u]; cbn in E; try discriminate; inversion E; subst u; cbn [step];
-        try rewrite L; auto.
-      + destruct (st (loc s t)) eqn:S; try congruence; (split; [congruence|split; [exact L|reflexivity]]).
-      + pose proof L as L0. unfold is_live in L0.
-        destruct (st (loc s t)) eqn:S; try discriminate L0; try congruence.
-        * destruct (guard s); try destruct (is_current s t);
-            cbn [loc set_loc set_current]; rewrite upd_same; unfold is_live; cbn [st trace];
-            (split; [discriminate|split; reflexivity]).
-        * split; [congruence|split; [exact L|reflexivity]].
-        * split; [congruence|split; [exact L|reflexivity]].
-    - rewrite (step_frame s a t E). auto. }
-  destruct K as (K1 & K2 & K3). destruct (IH (step s a) K1 K2) as [T L']. split; [congruence|exact L'].
+  assert (NE : a <> Enter t) by (intro E; apply N; left; exact E).
+  assert (NHa : forall e, a <> HookEnd t e) by (intros e E; apply (NH e); left; exact E).
+  destruct (zombie_step s a t Z NE) as [Z' T'].
+  destruct (IH (step s a) t Z') as [Z'' T''].
+  - intro I; apply N; right; exact I.
+  - intros e I. apply (NH e). right. exact I.
+  - split; [exact Z''|]. rewrite T''. apply T'. exact NHa.
+Qed.
+
+(* the invariant alone survives also the completion of a pending hook *)
+Lemma zombie_run_inv sched : forall s t, zombie s t -> ~ In (Enter t) sched -> zombie (run s sched) t.
+Proof.
+  induction sched as [|a r IH]; intros s t Z N; [exact Z|].
+  rewrite run_cons. apply IH.
+  - apply zombie_step; [exact Z|]. intro E; apply N; left; exact E.
+  - intro I; apply N; right; exact I.
+Qed.
+
+(* after the main thread's stop(), the abandoned thread t never adds anything to its trace, whatever it
+   and everybody else does afterwards (t does not re-enter the tracer, and is not inside a predicate
+   callback whose recording is still pending — that case is [pending_hook_records_locally]) *)
+Lemma abandoned_records_nothing s t sched : st (loc s t) <> Fresh -> ~ In (Enter t) sched ->
+  (forall e, ~ In (HookEnd t e) sched) ->
+  trace (loc (run (step s Stop) sched) t) = trace (loc s t).
+Proof.
+  intros NF N NH.
+  assert (Z : zombie (step s Stop) t) by (split; [exact NF|intros _; reflexivity]).
+  destruct (zombie_run sched _ t Z N NH) as [_ T]. exact T.
+Qed.
+
+(* ... and the same once a later test has entered the tracer *)
+Lemma superseded_records_nothing s t t' sched : t' <> t -> st (loc s t) <> Fresh ->
+  is_live (loc s t') = true -> ~ In (Enter t) sched -> (forall e, ~ In (HookEnd t e) sched) ->
+  trace (loc (run (step s (Enter t')) sched) t) = trace (loc s t).
+Proof.
+  intros D NF L N NH.
+  assert (F : loc (step s (Enter t')) t = loc s t) by (apply step_frame; cbn; congruence).
+  assert (Z : zombie (step s (Enter t')) t).
+  { split; [rewrite F; exact NF|intros _; apply enter_revokes; assumption]. }
+  destruct (zombie_run sched _ t Z N NH) as [_ T]. rewrite T, F. reflexivity.
+Qed.
+
+(* An abandoned thread that resumes INSIDE a predicate callback (it was blocked in an operator of the code
+   under test, past the gate) completes the recording: the event goes to its own trace and nowhere else —
+   no other thread's local state, no result, not the tracer-wide state — and the thread is then live but
+   not current, so that its next gate aborts it. *)
+Lemma pending_hook_records_locally s t e :
+  st (loc s t) = InHook ->
+  trace (loc (step s (HookEnd t e)) t) = trace (loc s t) ++ [e]
+  /\ (forall u, u <> t -> loc (step s (HookEnd t e)) u = loc s u)
+  /\ results (step s (HookEnd t e)) = results s
+  /\ current (step s (HookEnd t e)) = current s
+  /\ imp (step s (HookEnd t e)) = imp s.
+Proof.
+  intro S. cbn [step]. rewrite S. cbn [loc set_loc results current imp]. rewrite upd_same. cbn [trace].
+  repeat split. intros u N. apply upd_other. exact N.
+Qed.
+
+Lemma resumed_zombie_dies s t e e' : zombie s t -> st (loc s t) = InHook ->
+  let s1 := step s (HookEnd t e) in
+  st (loc (step s1 (HookBegin t)) t) = Aborting
+  /\ st (loc (step s1 (Probe t e')) t) = Aborting
+  /\ trace (loc (step s1 (Probe t e')) t) = trace (loc s t) ++ [e].
+Proof.
+  intros [NF NC] S s1.
+  assert (C : is_current s t = false) by (apply NC; unfold active; rewrite S; reflexivity).
+  assert (L1 : loc s1 t = {| st := Live; enabled := true; trace := trace (loc s t) ++ [e] |}).
+  { unfold s1. cbn [step]. rewrite S. cbn [loc set_loc]. apply upd_same. }
+  assert (C1 : is_current s1 t = false).
+  { unfold s1. cbn [step]. rewrite S. exact C. }
+  cbn [step]. rewrite L1. unfold is_live. cbn [st enabled]. rewrite C1.
+  cbn [loc set_loc]. rewrite !upd_same. cbn [st trace]. auto.
+Qed.
+
+(* a thread that is no longer active is frozen for good *)
+Lemma dead_is_frozen s t sched : dead (loc s t) = true ->
+  trace (loc (run s sched) t) = trace (loc s t) /\ dead (loc (run s sched) t) = true.
+Proof.
+  revert s. induction sched as [|a r IH]; intros s D; [auto|].
+  rewrite run_cons. destruct (dead_step s a t D) as [D' T'].
+  destruct (IH (step s a) D') as [T D'']. split; [congruence|exact D''].
 Qed.
 
 (* ---- the guarded __exit__ ------------------------------------------------------------------------ *)
@@ -339,6 +414,20 @@ Example zombie_reachable :
   st (loc s 1%nat) <> Fresh /\ is_live (loc s 1%nat) = true
   /\ trace (loc (run (step s Stop) [Probe 1 11; Exit 1; Probe 1 12]%nat) 1%nat) = [10].
 Proof. cbn. repeat split. discriminate. Qed.
+
+(* thread 1 is abandoned while it is blocked inside a predicate callback; test 2 runs and is harvested;
+   then thread 1 wakes up and completes the recording: the event lands in ITS trace, the result of test 2
+   is untouched, and thread 1 is aborted at its next probe *)
+Definition inhook_schedule : list action :=
+  [Init 1; Enter 1; Probe 1 10; HookBegin 1; Stop; Harvest 1;
+   Init 2; Enter 2; Probe 2 20; Exit 2; Harvest 2;
+   HookEnd 1 1000007; Probe 1 11; Exit 1]%nat.
+
+Example abandoned_inside_hook :
+  let s := run (init_state false [7]) inhook_schedule in
+  results s 2%nat = Some (ROk [7; 20]) /\ results s 1%nat = Some RTimeout
+  /\ trace (loc s 1%nat) = [7; 10; 1000007] /\ st (loc s 1%nat) = Done.
+Proof. cbn. repeat split. Qed.
 
 (* ---- model time of execute --------------------------------------------------------------------- *)
 Lemma exec_duration_bound tmo maxT fin : 0 <= tmo -> 0 <= maxT ->
